@@ -398,6 +398,11 @@ func (s *MemoryStore) RevokeRefreshToken(ctx context.Context, requestID string) 
 	s.refreshTokensMutex.Lock()
 	defer s.refreshTokensMutex.Unlock()
 
+	return s.revokeRefreshTokenLocked(requestID)
+}
+
+// revokeRefreshTokenLocked expects refreshTokenRequestIDsMutex and refreshTokensMutex to be held by the caller.
+func (s *MemoryStore) revokeRefreshTokenLocked(requestID string) error {
 	if signature, exists := s.RefreshTokenRequestIDs[requestID]; exists {
 		rel, ok := s.RefreshTokens[signature]
 		if !ok {
@@ -532,7 +537,16 @@ func (s *MemoryStore) DeletePARSession(ctx context.Context, requestURI string) (
 func (s *MemoryStore) RotateRefreshToken(ctx context.Context, requestID string, refreshTokenSignature string) (err error) {
 	// Graceful token rotation can be implemented here but it's beyond the scope of this example. Check
 	// the Ory Hydra implementation for reference.
-	if err := s.RevokeRefreshToken(ctx, requestID); err != nil {
+	//
+	// The refresh token locks are held until the access token is gone as well, so that the rotation takes effect as one
+	// step: no other operation finds the refresh token revoked while the access token issued with it is still there.
+	// No operation takes the access token locks before the refresh token locks, so the order below cannot deadlock.
+	s.refreshTokenRequestIDsMutex.Lock()
+	defer s.refreshTokenRequestIDsMutex.Unlock()
+	s.refreshTokensMutex.Lock()
+	defer s.refreshTokensMutex.Unlock()
+
+	if err := s.revokeRefreshTokenLocked(requestID); err != nil {
 		return err
 	}
 	return s.RevokeAccessToken(ctx, requestID)
